@@ -136,11 +136,11 @@ def stage_spec(workdir, modules):
 BAD_RE = re.compile(r'^"MONITOR-BAD\|([^|]*)\|([^|]*)\|([^|]*)\|([^|]*)\|([^|]*)\|(.*)"$')
 
 
-def run_monitor(trace, props, workdir, module="Monitors", invariant=False, timeout=1800):
+def run_monitor(trace, props, workdir, module="Monitors", invariant=False, timeout=1800, extra_modules=()):
     """Validate one trace file with the TLC monitors. Returns dict(bad=[...], accepted, states, out)."""
     name = os.path.basename(trace).replace(".ndjson", "")
     d = os.path.join(workdir, "mon-" + name)
-    stage_spec(d, [module + ".tla"])
+    stage_spec(d, [module + ".tla"] + list(extra_modules))
     cfg = os.path.join(d, module + ".cfg")
     with open(cfg, "w") as f:
         f.write('CONSTANTS\n  TraceFile = "%s"\n  Props = {%s}\n' % (trace, ", ".join('"%s"' % p for p in sorted(props))))
